@@ -196,7 +196,7 @@ class Model:
                 if s[k]:
                     u.modes.add(l)
             u.away = s["away"]
-            u.channels = set(s["channels"])
+            u.channels = {cn for cn in s["channels"] if cn in snap["channels"] and n in snap["channels"][cn]["users"]}
             u.invited = set(s["invited_to"])
             u.cfg_registered = old.cfg_registered if old else False
             users[n] = u
@@ -214,7 +214,9 @@ class Model:
             c.ban = set(s["ban"] or ())
             c.exc = set(s["exception"] or ())
             c.invex = set(s["invite_exception"] or ())
-            c.members = {m: set(r) for m, r in s["users"].items()}
+            # (a member the server lists without such a user existing is reported by invariant I1 at the step that
+            # produced it; the model carries on with the members that exist)
+            c.members = {m: set(r) for m, r in s["users"].items() if m in users}
             c.preconf = s["preconfigured"]
             d = s["default_modes"]
             for k, r in (("founders", "q"), ("protecteds", "a"), ("operators", "o"),
